@@ -16,11 +16,12 @@ func c19Main(r *hx.Run) {
 	}
 	ms := []hx.GModel{{Name: "avahi", Build: mdnsscen.Build(), MaxDepth: depth, MaxStates: 300000}}
 	var scens []hx.Scenario
-	pb := 1
+	pb := 2
 	if r.Thorough() {
-		pb = 2
+		pb = 3
 	}
-	for _, k := range []string{"shutdown-vs-reconnect", "shutdown-vs-browse", "shutdown-in-retry-sleep", "shutdown-at-retry-wakeup", "announce-vs-reconnect", "double-disconnect"} {
+	for _, k := range []string{"shutdown-vs-reconnect", "shutdown-vs-browse", "shutdown-in-retry-sleep", "shutdown-at-retry-wakeup", "announce-vs-reconnect", "double-disconnect",
+		"unannounce-vs-reconnect", "announce-vs-disconnect", "disconnect-at-retry-wakeup", "browse-after-reconnect", "restart-during-retry-sleep"} {
 		scens = append(scens, hx.Scenario{Name: "c19:" + k, Body: mdnsscen.RaceBody(k), Bounds: simrt.B(pb, 0, 0), Cfg: simrt.Config{MaxSteps: 100000, BranchAfterMark: true}})
 	}
 	if r.Worker {
